@@ -972,7 +972,7 @@ func main() {
 	sb.WriteString("].\n")
 	sb.WriteString("Definition r_rejected := Eval vm_compute in rejected cases.\nPrint r_rejected.\n")
 	sb.WriteString("Definition r_windows := Eval vm_compute in window_codes cases.\nPrint r_windows.\n")
-	for _, p := range []string{"C01", "C02", "C03", "C04", "C05", "C08", "C09", "C12"} {
+	for _, p := range []string{"C01", "C02", "C03", "C03x", "C04", "C05", "C08", "C09", "C12"} {
 		fmt.Fprintf(&sb, "Definition r_bad_%s := Eval vm_compute in bad_%s cases.\nPrint r_bad_%s.\n", p, p, p)
 		fmt.Fprintf(&sb, "Definition r_badw_%s := Eval vm_compute in badwn_%s cases.\nPrint r_badw_%s.\n", p, p, p)
 	}
